@@ -610,6 +610,10 @@ class Values(Term):
         super().__init__(None)
         self.field = Field(field) if not isinstance(field, Field) else field
 
+    @builder
+    def replace_table(self, current_table: Optional["Table"], new_table: Optional["Table"]) -> "Values":
+        self.field = self.field.replace_table(current_table, new_table)
+
     def get_sql(self, quote_char: Optional[str] = None, **kwargs: Any) -> str:
         return "VALUES({value})".format(value=self.field.get_sql(quote_char=quote_char, **kwargs))
 
@@ -1864,6 +1868,10 @@ class AtTimezone(Term):
         self.field = Field(field) if not isinstance(field, Field) else field
         self.zone = zone
         self.interval = interval
+
+    @builder
+    def replace_table(self, current_table, new_table):
+        self.field = self.field.replace_table(current_table, new_table)
 
     def get_sql(self, **kwargs):
         sql = '{name} AT TIME ZONE {interval}\'{zone}\''.format(
